@@ -31,6 +31,8 @@ KNOWN_BY_TAG = {
 def program_set(tier, seed):
     ps = []
     for p in progs.corpus(include_fail=True, big=False):      # programs the unchanged compiler refuses are kept: a change that accepts one is cross-checked
+        if "// only: " in p["src"] and "// only: C01" not in p["src"]:
+            continue                                            # programs that pin one property's finding (e.g. an end() that never returns)
         ps.append({"name": p["name"], "src": p["src"]})
     n1, n2 = (220, 80) if tier == "quick" else (2500, 600)
     for p in gen01.programs(n1, seed):
